@@ -50,6 +50,8 @@ type R struct {
 	start   time.Time
 	Replay  string
 	maxViol int
+	// reported counts the calls of Violation, recorded or not
+	reported int
 }
 
 func envInt(k string, def int64) int64 {
@@ -160,6 +162,7 @@ func (r *R) Inconclusive(what string) {
 func (r *R) Violation(sig, msg string, witness any) {
 	r.mu.Lock()
 	defer r.mu.Unlock()
+	r.reported++
 	n := 0
 	for _, v := range r.res.Violations {
 		if v.Sig == sig {
@@ -172,10 +175,12 @@ func (r *R) Violation(sig, msg string, witness any) {
 	r.res.Violations = append(r.res.Violations, Violation{Sig: sig, Msg: msg, Witness: witness})
 }
 
+// NViolations counts every reported violation, including repeats of a signature which are not recorded again:
+// callers compare it before and after a check to learn whether that check found anything.
 func (r *R) NViolations() int {
 	r.mu.Lock()
 	defer r.mu.Unlock()
-	return len(r.res.Violations)
+	return r.reported
 }
 
 func (r *R) Exhaustive(b bool) { r.mu.Lock(); r.res.Exhaustive = b; r.mu.Unlock() }
